@@ -6,7 +6,7 @@
    node steps, node crash/restart, delivery of any message ever sent (late, duplicated) — no bound on length, on the
    number of servers, terms or offsets. *)
 From Coq Require Import List NArith ZArith Permutation.
-From Oxia.Coord Require Import Model SelectProofs NodeProofs ElectionProofs Witnesses.
+From Oxia.Coord Require Import Model SelectProofs NodeProofs ElectionProofs Witnesses Config ConfigProofs.
 Import ListNotations.
 Open Scope Z_scope.
 
@@ -107,3 +107,40 @@ Theorem c05_file_store_old_refuted :
     exists w' k', step fixed w ACoordStartElection = Some w' /\ w_coord w' = Some k' /\ c_term (k_md k') <= t.
 Proof. exact file_store_shipped_refuted. Qed.
 Print Assumptions c05_file_store_old_refuted.
+
+(* The same three term theorems over traces that also contain Coordinator.ConfigChanged's compare-and-set on the cluster
+   status (Coord/Config.v: CConfigLoad = LoadWithVersion + ApplyClusterChanges, which copies existing shard entries;
+   CConfigSwap = one Swap attempt, refused when any Store moved the version in between, then recomputed from the fresh
+   status).  The election's Stores may fall anywhere between the load and the swap. *)
+Theorem c05_term_durable_before_use_cfg : forall c0 nodes tr x,
+  crun cfixed (init_cworld c0 nodes) tr = Some x -> cstore_atomic tr ->
+  exists d, w_dur (cw x) = DCell d /\
+    (forall i n t, In (MNewTerm i n t) (w_msgs (cw x)) -> t <= c_term d) /\
+    (forall i n t fm, In (MBecomeLeader i n t fm) (w_msgs (cw x)) -> t <= c_term d).
+Proof. exact term_durable_before_use_cfg. Qed.
+Print Assumptions c05_term_durable_before_use_cfg.
+
+Theorem c05_restart_never_reuses_cfg : forall c0 nodes tr x w' k',
+  crun cfixed (init_cworld c0 nodes) tr = Some x -> cstore_atomic tr ->
+  step fixed (cw x) ACoordStartElection = Some w' -> w_coord w' = Some k' ->
+  (forall i n t, In (MNewTerm i n t) (w_msgs (cw x)) -> t < c_term (k_md k')) /\
+  (forall i n t fm, In (MBecomeLeader i n t fm) (w_msgs (cw x)) -> t < c_term (k_md k')).
+Proof. exact restart_never_reuses_cfg. Qed.
+Print Assumptions c05_restart_never_reuses_cfg.
+
+Theorem c05_one_leader_per_term_cfg : forall c0 nodes tr x,
+  crun cfixed (init_cworld c0 nodes) tr = Some x -> cstore_atomic tr ->
+  forall n1 n2 t, In (n1, t) (w_wasleader (cw x)) -> In (n2, t) (w_wasleader (cw x)) -> n1 = n2.
+Proof. exact one_leader_per_term_cfg. Qed.
+Print Assumptions c05_one_leader_per_term_cfg.
+
+(* If the retry of the compare-and-set reloads only the version and writes the status computed from the old snapshot
+   (not the code as it is; kept as the reason why the recomputation matters), a config change overlapping an election's
+   term++ Store puts the durable term below a term already sent and the restarted coordinator reuses it. *)
+Theorem c05_config_stale_retry_refuted :
+  exists tr x d i n t,
+    crun cstale (init_cworld c_steady (fun _ => node_init)) tr = Some x /\ cstore_atomic tr /\
+    w_dur (cw x) = DCell d /\ In (MNewTerm i n t) (w_msgs (cw x)) /\ c_term d < t /\
+    exists w' k', step fixed (cw x) ACoordStartElection = Some w' /\ w_coord w' = Some k' /\ c_term (k_md k') <= t.
+Proof. exact config_stale_retry_refuted. Qed.
+Print Assumptions c05_config_stale_retry_refuted.
